@@ -62,7 +62,8 @@ func (ex *Exec) sqlCall(fr *frame, d *sqlDB, kind, q string, tx int) (structure,
 }
 
 func (ex *Exec) errTxDone() iface {
-	return ex.ioGlobalErr("database/sql", "ErrTxDone")
+	// database/sql's own initialiser needs reflection; the text is what callers match
+	return ex.newErr("sql: transaction has already been committed or rolled back")
 }
 
 func init() {
